@@ -106,7 +106,7 @@ func canonDetail(s string) string {
 	return strings.Join(strings.Fields(s), "")
 }
 
-var c03Breakers = []string{"{'a':1", "{'a':", "{'a'", "g9(1,", "g9(", "[1,2", "[1..", "[", "x[", "x[1:", "`a{", "`a{x", "`a{% if 1 {", "if 1 {", "if 1 { 2 } else {",
+var c03Breakers = []string{"=", "= (1", "1", "敏捷70", "{'a':1", "{'a':", "{'a'", "g9(1,", "g9(", "[1,2", "[1..", "[", "x[", "x[1:", "`a{", "`a{x", "`a{% if 1 {", "if 1 {", "if 1 { 2 } else {",
 	"while 1 {", "while x { break", "func g9(n) {", "func g9(", "1 ? 2 :", "1 ? 2, 3 ?", "x ||", "x &&", "x ??", "(1+", "(", "2d", "&y =", "&y.x =", "this.", "x.y =", "x[0] =",
 	"x = ", "1 +", "1 *", "'abc", "\"abc", "\x1eabc", "return (", "// #EnableDice wod", "x.len(", "[1,2]kh(", "1 <", "1 ==", "x = y =", "{1:2, 3:", "[[1], [2", "reason text", "因为 某事",
 	"1 ? 2 : (", "x[1][", "{'a': [1,", "`{%", "`{", "f(`", "- ", "+ (", "~", "@@", "1 2 3", ")", "]", "}", "else { 1 }", ", 2",
@@ -120,10 +120,10 @@ type flagCfg struct{ wod, coc, fate, dc, nostmt bool }
 
 // c03Endings: every kind of value a program can end in, in every context that emits code after it
 func c03Endings() []string {
-	prelude := "arr = [[7,8],[9,10]]; dd = {'a': [1,2], 'b': {'c': 3}}; func ff(n) { [n, n+1] }; ss = 'abc'; nn = 4; "
+	prelude := "arr = [[7,8],[9,10]]; dd = {'a': [1,2], 'b': {'c': 3}}; func ff(n) { [n, n+1] }; func A(n) { n + 100 }; ss = 'abc'; nn = 4; "
 	ends := []string{"5", "nn", "arr[0]", "arr[0][1]", "arr[1:]", "ff(2)", "ff(2)[0]", "arr.len()", "arr[0].len()", "dd.a", "dd.a[0]", "dd['b'].c", "(nn)", "(arr)[0]", "'xy'", "ss[1]", "`a{nn}`",
-		"[1,2]", "[1,2][0]", "{'k': 1}", "{'k': [1]}.k", "2d1", "(2)d1", "b", "p", "b2", "3a10", "a10", "2c5", "f", "-nn", "arr[0] + arr[1]", "nn ? arr[0] : 1", "this"}
-	ctxs := []string{"%s", "x = %s", "100 + %s", "-%s", "nn ? 1 : %s", "nn && %s", "nn ?? %s", "y = x = %s", "dd.z = %s", "arr[0] = %s", "1 < %s", "&cv = %s"}
+		"[1,2]", "[1,2][0]", "{'k': 1}", "{'k': [1]}.k", "2d1", "(2)d1", "b", "p", "b2", "3a10", "a10", "2c5", "f", "-nn", "arr[0] + arr[1]", "nn ? arr[0] : 1", "this", "A(2)", "1+A(2)"}
+	ctxs := []string{"%s", "x = %s", "100 + %s", "-%s", "nn ? 1 : %s", "nn && %s", "nn ?? %s", "y = x = %s", "dd.z = %s", "arr[0] = %s", "1 < %s", "&cv = %s", "return %s", "1; return %s"}
 	var out []string
 	for _, e := range ends {
 		for _, c := range ctxs {
@@ -322,11 +322,6 @@ func init() {
 			lineNo++
 			if lineNo%sn != si || (lineNo/sn+int(envSeed()))%*every != 0 {
 				return
-			}
-			for _, u := range []string{"dir(", ".keys(", ".values(", ".items("} { // results in map order: unspecified
-				if strings.Contains(rec.Src, u) {
-					return
-				}
 			}
 			fc := flagCfg{r.Intn(2) == 0, r.Intn(2) == 0, r.Intn(2) == 0, r.Intn(2) == 0, r.Intn(6) == 0}
 			seed := uint64(r.Int63())
